@@ -18,6 +18,7 @@ static vh_args_t args;
 static long cur_idx;
 static unsigned long n_events, n_accept;
 static jwt_checker_t *chk2[2];
+static jwt_checker_t *chkp[2];	/* the same pin, but holding the PRIVATE form of the key (a private JWK verifies as well) */
 static const vh_key_t *cur_key;
 static int classes_seen[64];
 
@@ -51,6 +52,21 @@ static void try_token(int cls, int variant, const char *tok)
 		printf("]\n");
 	}
 	(void)ef;
+	/* base tokens and a sample of the mutants: once more through the checker that holds the private JWK, then again through the
+	 * public one (what a verification with one form of the key leaves behind must not matter to the next) */
+	if (chkp[0] && (cls == M_BASE || (n_events % 7) == 0)) {
+		int rp[2], ra[2];
+		for (int p = 0; p < 2; p++) {
+			vh_set_prov(p);
+			rp[p] = jwt_checker_verify(chkp[p], tok); jwt_checker_error_clear(chkp[p]);
+			ra[p] = jwt_checker_verify(chk2[p], tok); jwt_checker_error_clear(chk2[p]);
+		}
+		if (rp[0] == 0 || rp[1] == 0 || ra[0] != rc[0] || ra[1] != rc[1] || cls == M_BASE || args.only >= 0) {
+			printf("[\"MP\",%ld,%d,%d,%d,%d,%d,%d,%d", cur_idx, cls, variant, refvalid, rp[0], rp[1], ra[0], ra[1]);
+			if (args.only >= 0 || ((rp[0] == 0 || rp[1] == 0) && !refvalid)) { printf(","); vh_put_jstr(stdout, tok); }
+			printf("]\n");
+		}
+	}
 }
 
 static char *join3(const char *h, const char *p, const char *s)
@@ -265,6 +281,11 @@ static void run_case(int ki, int alg, int base, int pinroute)
 		chk2[pv] = jwt_checker_new();
 		if (jwt_checker_setkey(chk2[pv], pinroute ? JWT_ALG_NONE : (jwt_alg_t)alg, it))
 			vh_harness_fail("setkey refused %s/%s: %s", k->name, vh_alg_name(alg), jwt_checker_error_msg(chk2[pv]));
+		chkp[pv] = NULL;
+		if (k->kind != VH_K_OCT) {
+			chkp[pv] = jwt_checker_new();
+			if (jwt_checker_setkey(chkp[pv], JWT_ALG_NONE, priv[pv])) vh_harness_fail("setkey (private form) refused");
+		}
 	}
 
 	snprintf(hdr, sizeof(hdr), "{\"alg\":\"%s\",\"typ\":\"JWT\"}", vh_alg_name(alg));
@@ -464,7 +485,7 @@ static void run_case(int ki, int alg, int base, int pinroute)
 	free(h);
 done:
 	free(tok);
-	for (int pv = 0; pv < 2; pv++) { jwt_checker_free(chk2[pv]); jwks_free(set[pv]); }
+	for (int pv = 0; pv < 2; pv++) { jwt_checker_free(chk2[pv]); if (chkp[pv]) jwt_checker_free(chkp[pv]); chkp[pv] = NULL; jwks_free(set[pv]); }
 }
 
 int main(int argc, char **argv)
